@@ -3,7 +3,8 @@
 
 Mathlib-free, executable.  Mirrors, decision by decision:
 
-* `TestCase.remove_unused_variables`         ↔ `removeUnused` (backward liveness pass, `ruStep`)
+* `TestCase.remove_unused_variables`         ↔ `removeUnused` (backward liveness pass, `ruStep`; asserted
+  variables are alive, a dropped binding keeps assertions and accessible)
 * `_is_expected_exception`                   ↔ `isExpected`
 * `TestSuiteWriter._build_test_function`     ↔ `stmtItems` / `stmtFailing` / `buildFn`
 * exception reference used in `pytest.raises` ↔ `importableBase` (nearest class of the MRO that
@@ -74,23 +75,28 @@ structure Stmt where
 
 /-! ## `TestCase.remove_unused_variables` -/
 
-/-- `Statement(node=new_node, bound_variable=None, bound_type=None)`: assertions and accessible are
-not carried over; a node that is not a single-target assignment is kept as it is. -/
-def dropBinding (s : Stmt) : Stmt :=
-  if s.simpleAssign then { s with bound := none, asserts := [], acc := none } else s
+def assertRoots (s : Stmt) : List String := s.asserts.filterMap (·.root)
 
+/-- `Statement(node=new_node, bound_variable=None, bound_type=None, assertions=…, accessible=…)`: only the
+binding goes away, the assertions and the accessible stay with the statement (/repo 44adcd2); a node that
+is not a single-target assignment is kept as it is. -/
+def dropBinding (s : Stmt) : Stmt :=
+  if s.simpleAssign then { s with bound := none } else s
+
+/-- One step of the backward pass. `alive_vars.update(_get_asserted_variables(stmt))` comes first: the roots
+of the statement's assertions are alive at its end (a static-field assertion contributes the module alias,
+which no statement binds: left out). -/
 def ruStep (s : Stmt) (a : List Stmt × List String) : List Stmt × List String :=
+  let alive := a.2 ++ assertRoots s
   match s.bound with
   | some bv =>
-    if bv ∈ a.2 then (s :: a.1, a.2.filter (fun v => v != bv) ++ s.uses)
-    else (dropBinding s :: a.1, a.2 ++ s.uses)
-  | none => (s :: a.1, a.2 ++ s.uses)
+    if bv ∈ alive then (s :: a.1, alive.filter (fun v => v != bv) ++ s.uses)
+    else (dropBinding s :: a.1, alive ++ s.uses)
+  | none => (s :: a.1, alive ++ s.uses)
 
 def removeUnusedAux (ss : List Stmt) : List Stmt × List String := ss.foldr ruStep ([], [])
 
 def removeUnused (ss : List Stmt) : List Stmt := (removeUnusedAux ss).1
-
-def assertRoots (s : Stmt) : List String := s.asserts.filterMap (·.root)
 
 /-- Local variables read by the emitted function body that no textually earlier statement binds. -/
 def freeReads : List Stmt → List String
